@@ -164,13 +164,15 @@ type Env struct {
 	curPos    token.Pos
 	unwrapped map[string]Val
 	splitInfo map[string]*splitRec
+	termFacts map[string][]string
+	nonNil    map[string]bool
 }
 
 func newEnv(p *Program, cx *Contracts, cfg *PropConfig) *Env {
 	d := newDecls()
 	return &Env{P: p, D: d, S: newSorter(d), Cx: cx, cfg: cfg, maxPaths: 20000,
 		trusted: map[string]int{}, dropped: map[string]int{}, inlined: map[string]int{}, havocked: map[string]int{}, notes: map[string]int{},
-		splitInfo: map[string]*splitRec{}, keyTerms: map[string][]Seg{}, shapes: map[string]string{}, noContract: map[*ssa.Function]bool{}}
+		splitInfo: map[string]*splitRec{}, termFacts: map[string][]string{}, nonNil: map[string]bool{}, keyTerms: map[string][]Seg{}, shapes: map[string]string{}, noContract: map[*ssa.Function]bool{}}
 }
 
 func (e *Env) fail(format string, a ...interface{}) {
@@ -325,6 +327,7 @@ func (e *Env) oblige(st *State, kind, label, goal, detail string, pos token.Pos)
 	if goal == "true" {
 		// still record as trivially discharged for counting
 	}
+	goal = e.skolemize(goal)
 	o := &Obligation{Fn: e.curName, Kind: kind, Label: label, PC: append([]string(nil), st.pc...), Goal: goal, Detail: detail, Pos: e.pos(pos), decls: e.D, Bounded: e.bounded, env: e}
 	o.defs = append([]string(nil), st.defs...)
 	e.obls = append(e.obls, o)
